@@ -110,6 +110,27 @@ def subclassify(spec, v, rng, p=0.7):
     return v
 
 
+def closure_failures(m1, m2, v, before):
+    """All closure clauses violated by marshal outputs m1 (first call) / m2 (second call) for input v."""
+    out = []
+    ok, why = json_plain(m1)
+    if not ok:
+        return [("not-plain", why)]
+    ok, why = json_accepts(m1)
+    if not ok:
+        out.append(("json-rejects", why))
+    if canon(m1, strict=True) != canon(m2, strict=True):
+        out.append(("unstable", short(m2, 200)))
+    shared = set(mutable_ids(m1)) & set(mutable_ids(v))
+    if shared:
+        out.append(("aliases-input", f"{len(shared)} shared mutable containers"))
+    if isinstance(m1, (list, dict)) and m1 is m2:
+        out.append(("aliases-previous-result", "second call returned the identical container"))
+    if before is not None and canon(v, strict=True) != before:
+        out.append(("input-mutated", short(before, 200)))
+    return out
+
+
 def check_output(sh, tsrc, T, v, prog, tag, spec=None, v0=None):
     before = canon(v, strict=True)
     try:
@@ -126,43 +147,27 @@ def check_output(sh, tsrc, T, v, prog, tag, spec=None, v0=None):
                      module_src=prog.source[-2500:])
         return
     sh.count("marshal_checked")
+    fails = closure_failures(m1, m2, v, before)
+    if not fails:
+        return
     rec = dict(type_src=tsrc, value=short(v, 300), output=short(m1, 300), tag=tag, module_src=prog.source[-2500:])
-    ok, why = json_plain(m1)
-    if ok:
-        ok, why = json_accepts(m1)
-        kind = "json-rejects"
-    else:
-        kind = "not-plain"
-    if not ok:
-        if spec is not None:
-            v_loc = v if tag == "valid" else v0
-            # localise the offending position on the input side; at a union position record the dispatch facts
-            from checks.c01 import union_facts
+    if spec is not None:
+        # localise the offending position on the input side; at a union position record the dispatch facts
+        from checks.c01 import union_facts
 
-            def bad(sub, x):
-                try:
-                    with quiet():
-                        o = typelib.marshal(x, t=sub.t)
-                    return not (json_plain(o)[0] and json_accepts(o)[0])
-                except Exception:  # noqa: BLE001
-                    return False
+        def bad(sub, x):
+            try:
+                with quiet():
+                    return bool(closure_failures(typelib.marshal(x, t=sub.t), typelib.marshal(x, t=sub.t), x, None))
+            except Exception:  # noqa: BLE001
+                return False
 
-            path, pos, x = localize(spec, v_loc, bad)
-            rec.update(pos=path, pos_src=pos.src, pos_desc=describe(pos), pos_value=short(x, 200))
-            if pos.kind == "union":
-                rec.update(union_facts(pos, x)[0])
+        path, pos, x = localize(spec, v if tag == "valid" else v0, bad)
+        rec.update(pos=path, pos_src=pos.src, pos_desc=describe(pos), pos_value=short(x, 200))
+        if pos.kind == "union":
+            rec.update(union_facts(pos, x)[0])
+    for kind, why in fails:
         sh.violation(kind, where=why, **rec)
-        if kind == "not-plain":
-            return
-    if canon(m1, strict=True) != canon(m2, strict=True):
-        sh.violation("unstable", where=short(m2, 200), **rec)
-    shared = set(mutable_ids(m1)) & set(mutable_ids(v))
-    if shared:
-        sh.violation("aliases-input", where=f"{len(shared)} shared mutable containers", **rec)
-    if m1 is not None and isinstance(m1, (list, dict)) and m1 is m2:
-        sh.violation("aliases-previous-result", where="second call returned the identical container", **rec)
-    if canon(v, strict=True) != before:
-        sh.violation("input-mutated", where=short(before, 200), **rec)
 
 
 def canaries(sh):
